@@ -11,7 +11,7 @@ use crate::engine::data_types::*;
 use crate::mem_store::*;
 use crate::stringpack::StringPackerIterator;
 
-#[derive(Serialize, Deserialize)]
+#[derive(Serialize, Deserialize, Clone)]
 pub struct Column {
     name: String,
     len: usize,
@@ -30,6 +30,12 @@ pub trait DataSource: fmt::Debug + Sync + Send {
 
     fn decode<'a>(&'a self) -> BoxedData<'a> {
         decode(&self.codec(), &self.data_sections())
+    }
+
+    /// A decompressed copy if the first data section is LZ4/pco compressed. `decode` cannot see through
+    /// the compression of packed strings and only handles some compressed section types.
+    fn decompressed(&self) -> Option<Column> {
+        None
     }
 }
 
@@ -51,6 +57,9 @@ impl<T: DataSource> DataSource for Arc<T> {
     }
     fn full_type(&self) -> Type {
         (**self).full_type()
+    }
+    fn decompressed(&self) -> Option<Column> {
+        (**self).decompressed()
     }
 }
 
@@ -77,6 +86,16 @@ impl DataSource for Column {
     }
     fn full_type(&self) -> Type {
         Type::new(self.basic_type(), self.codec())
+    }
+    fn decompressed(&self) -> Option<Column> {
+        match self.codec.ops().first() {
+            Some(CodecOp::LZ4(..)) | Some(CodecOp::Pco(..)) => {
+                let mut copy = self.clone();
+                copy.lz4_or_pco_decode();
+                Some(copy)
+            }
+            _ => None,
+        }
     }
 }
 
@@ -207,7 +226,7 @@ impl fmt::Debug for Column {
     }
 }
 
-#[derive(Debug, Serialize, Deserialize)]
+#[derive(Debug, Serialize, Deserialize, Clone)]
 pub enum DataSection {
     U8(Vec<u8>),
     U16(Vec<u16>),
